@@ -187,7 +187,7 @@ class MsgBlockList(List["Block"]):
 
 class Message:
     __slots__ = ("name", "send_flags", "packet_id", "acks", "body_boundaries", "queued",
-                 "offset", "raw_extra", "raw_body", "deserializer", "_blocks", "finalized",
+                 "offset", "raw_extra", "raw_body", "raw_trailer", "deserializer", "_blocks", "finalized",
                  "direction", "meta", "synthetic", "dropped", "sender")
 
     def __init__(self, name, *args, packet_id=None, flags=0, acks=None, direction=None):
@@ -206,6 +206,8 @@ class Message:
         # For lazy deserialization
         self.raw_body = None
         self.deserializer = None
+        # Bytes found past the last block the template knows about, written back as they came
+        self.raw_trailer = b""
         # should be set once a packet is sent / dropped to prevent accidental
         # re-sending or re-dropping
         self.finalized = False
@@ -252,6 +254,7 @@ class Message:
         # block list was clobbered, so we don't care about any unparsed data
         self.raw_body = None
         self.deserializer = None
+        self.raw_trailer = b""
 
     def create_block_list(self, block_name: str):
         # There's a slight semantic difference between a missing block list
